@@ -9,7 +9,7 @@
 
 #define MAX_THR   16
 #define MAX_POOLS 2
-#define MAX_MSG   6000
+#define MAX_MSG   24000
 #define MAX_BC    64
 #define MAX_ACTORS 6
 
